@@ -11,7 +11,8 @@ from . import dri
 
 
 def rep():
-    return dri.Rep({"family": "binding"}, B.binding_battery(), B.binding_judge)
+    from .refmodel import with_reference
+    return with_reference(dri.Rep({"family": "binding"}, B.binding_battery(), B.binding_judge), ("expansion",))
 
 
 BI_DESC = ("build_indices (2 signals x 2 header columns, symbolic names as identities): per signal, in signal order - "
